@@ -59,4 +59,17 @@ example : get (reported ++ [.report stray, .report (idle "a4")]) (fun d => d.ima
 /-- C04: the stale report of the stray replica did not alter the view -/
 example : get (reported ++ [.report stray]) (fun d => d.image.shards.all (fun c => c.cci == 3 && c.replicas.length == 3)) = true := by decide
 
+/-- C05 / C01 `silent_member_is_detected`: the hypotheses are met by the history above - member 103 was last reported at
+    time 10; a tail of 13 ticks and reports of the two other NodeHosts does not list it and carries the clock 65 > 60 past
+    that time; and indeed the views then classify it failed -/
+def silentTail : List Cmd := List.replicate 13 .tick ++ [.report (rep "a1" 101), .report (rep "a2" 102)]
+example : get reported (fun d => d.tick == 10 && d.image.shards.all (fun c => c.shardId != 1 ||
+    c.replicas.all (fun r => r.replicaId != 103 || r.tick == 10))) = true := by decide
+example : (10 + ticksIn silentTail * tickInterval - 10 > nodeHostTTL) ∧ ticksIn silentTail = 13 := by decide
+example : silentTail.all (fun c => match c with
+    | .report nhi => nhi.shardInfo.all (fun ci => !(ci.shardId == 1 && ci.replicaId == 103))
+    | _ => true) = true := by decide
+example : get (reported ++ silentTail) (fun d => d.image.shards.all (fun c =>
+    c.replicas.all (fun r => r.replicaId != 103 || (r.failed d.tick && r.tick == 10)))) = true := by decide
+
 end Drummer.WitnessDb
